@@ -40,6 +40,7 @@ fn model_prop(
         }),
         render: Arc::new(|c: &Case| c.render(80)),
         minimize: Some(Arc::new(minimize_case)),
+        shrink_iters: 1500,
     }
 }
 
@@ -223,6 +224,7 @@ pub fn c06() -> PropDef<Case> {
         }),
         render: Arc::new(|c: &Case| c.render(80)),
         minimize: Some(Arc::new(minimize_case)),
+        shrink_iters: 1500,
     }
 }
 
